@@ -44,6 +44,43 @@ def pool(tier, seed):
     return specs
 
 
+def sibling(sp, rng, kind):
+    """A configuration that shares everything with ``sp`` except one factor - the history that a
+    cache keyed on too little (dates, crop name, soil type ...) would confuse with ``sp``."""
+    import copy
+
+    a = copy.deepcopy(sp)
+    if kind == "weather":
+        if a["weather"]["kind"] == "synth":
+            a["weather"]["seed"] = int(rng.integers(0, 2 ** 31 - 1))
+            a["weather"]["regime"] = gen.pick(rng, gen.WARM)
+        else:
+            a["weather"]["temp_add"] = float(gen.pick(rng, [-3.0, 4.0]))
+            a["weather"]["rain_mult"] = 0.5
+    elif kind == "soil":
+        a["soil"] = {"type": gen.pick(rng, [x for x in common.SOILS if x not in ("Paddy", "ac_TunisLocal", a["soil"]["type"])]), "kw": {}}
+        a["iwc"] = {"wc_type": "Prop", "method": "Layer", "depth_layer": [1], "value": [gen.pick(rng, ["FC", "WP", "SAT"])]}
+    elif kind == "irr":
+        a["irr"] = {"method": int(gen.pick(rng, [0, 1, 2, 4, 5])), "kw": {"SMT": [55.0] * 4, "IrrInterval": 4, "depth": 6.0,
+                                                                         "NetIrrSMT": 60.0}, "schedule": None}
+    elif kind == "crop_kw":
+        a["crop"]["kw"] = dict(a["crop"].get("kw", {}), PlantMethod=int(rng.integers(0, 2)), ETadj=int(rng.integers(0, 2)))
+    elif kind == "co2":
+        a["co2"] = {"constant": float(gen.pick(rng, [300.0, 600.0, 900.0]))}
+    elif kind == "iwc":
+        nl = S.n_layers(a)
+        a["iwc"] = {"wc_type": "Pct", "method": "Layer", "depth_layer": list(range(1, nl + 1)),
+                    "value": [float(gen.pick(rng, [5, 45, 95]))] * nl}
+    elif kind == "gw":
+        a["gw"] = None if a.get("gw") else {"method": "Constant", "dates": [a["start"]], "values": [float(gen.pick(rng, [0.8, 1.6]))]}
+    elif kind == "fm":
+        a["fm"] = {"mulches": True, "mulch_pct": 70.0, "f_mulch": 0.6, "bunds": True, "z_bund": 0.12, "bund_water": 30.0}
+    return a
+
+
+SIBLING_KINDS = ["weather", "soil", "irr", "crop_kw", "co2", "iwc", "gw", "fm"]
+
+
 def cases(tier, seed):
     specs = pool(tier, seed)
     n = len(specs)
@@ -68,6 +105,17 @@ def cases(tier, seed):
         else:
             plan = [(o, True) for o in others] + [(b, True)]
         out.append({"kind": "seq", "b": b, "plan": [{"spec": specs[k], "run": r, "idx": k} for k, r in plan]})
+    # near-identical predecessors: same dates and crop, one factor changed
+    nsib = base.n_cases(96, 1200, tier)
+    for j in range(nsib):
+        b = j % n
+        kind = SIBLING_KINDS[(j // n) % len(SIBLING_KINDS)] if j >= n else "weather"
+        a = sibling(specs[b], rng, kind)
+        plan = [{"spec": a, "run": True, "idx": -1}, {"spec": specs[b], "run": True, "idx": b}]
+        if j % 3 == 2:
+            plan.insert(1, {"spec": sibling(specs[b], rng, SIBLING_KINDS[int(rng.integers(0, len(SIBLING_KINDS)))]),
+                            "run": True, "idx": -1})
+        out.append({"kind": "seq", "b": b, "plan": plan, "sibling": kind})
     nfs = base.n_cases(12, 100, tier)
     for j in range(nfs):
         b = (j * 7) % n
@@ -119,6 +167,9 @@ def run_case(case):
     else:
         out = fresh.run_plan(plan)
         cov["in_process_sequences"] += 1
+        if case.get("sibling"):
+            cov["sibling_sequences"] += 1
+            cov["sibling_" + case["sibling"]] += 1
         cov["executions"] += sum(1 for it in plan if it.get("run", True))
         check_globals(out["globals"], acc, f"an in-process sequence in worker {os.getpid()}")
         for pos, (item, dg, st) in enumerate(zip(plan, out["digests"], out["status"])):
